@@ -459,6 +459,59 @@ pub fn run(run: &mut Run) {
         }
     }
 
+    // ---- aliasing: one variable (in particular collections holding NaN) read several times in one
+    //      expression: every read denotes the same value and equality is decided by contents
+    run.sub("aliasing");
+    {
+        let nan = MV::f(f64::NAN);
+        let xs: Vec<MV> = vec![
+            MV::List(vec![nan.clone()]),
+            MV::List(vec![MV::Int(1), nan.clone()]),
+            MV::List(vec![MV::List(vec![nan.clone()])]),
+            MV::Map(vec![(ms("a"), nan.clone())]),
+            MV::Map(vec![(ms("a"), MV::List(vec![nan.clone()]))]),
+            nan.clone(),
+            MV::List(vec![MV::Int(1)]),
+            MV::Map(vec![(ms("a"), MV::Int(1))]),
+            MV::s("ab"),
+            MV::Bytes(vec![1]),
+            MV::List(vec![]),
+        ];
+        let x = || v("x");
+        let y = || v("y");
+        let bx = |e: E| Box::new(e);
+        let templates: Vec<(&str, E)> = vec![
+            ("x==x", E::Bin("==", bx(x()), bx(x()))),
+            ("x!=x", E::Bin("!=", bx(x()), bx(x()))),
+            ("x in [x]", E::Bin("in", bx(x()), bx(E::List(vec![x()])))),
+            ("[x]==[x]", E::Bin("==", bx(E::List(vec![x()])), bx(E::List(vec![x()])))),
+            ("[x, x]==[x, x]", E::Bin("==", bx(E::List(vec![x(), x()])), bx(E::List(vec![x(), x()])))),
+            ("{'k': x}=={'k': x}", E::Bin("==", bx(E::Map(vec![(l(MV::s("k")), x())])), bx(E::Map(vec![(l(MV::s("k")), x())])))),
+            ("[x].all(y, y==y)", E::Macro("all", bx(E::List(vec![x()])), "y".into(), vec![E::Bin("==", bx(y()), bx(y()))])),
+            ("[x].all(y, y==x)", E::Macro("all", bx(E::List(vec![x()])), "y".into(), vec![E::Bin("==", bx(y()), bx(x()))])),
+            ("[x].exists(y, y in [x])", E::Macro("exists", bx(E::List(vec![x()])), "y".into(), vec![E::Bin("in", bx(y()), bx(E::List(vec![x()])))])),
+            ("[x].map(y, y==y)", E::Macro("map", bx(E::List(vec![x()])), "y".into(), vec![E::Bin("==", bx(y()), bx(y()))])),
+            ("[x].filter(y, y!=y)", E::Macro("filter", bx(E::List(vec![x()])), "y".into(), vec![E::Bin("!=", bx(y()), bx(y()))])),
+            ("x==x ? 1 : 2", E::Cond(bx(E::Bin("==", bx(x()), bx(x()))), bx(l(MV::Int(1))), bx(l(MV::Int(2))))),
+            ("(x==x) || (x!=x)", E::Bin("||", bx(E::Bin("==", bx(x()), bx(x()))), bx(E::Bin("!=", bx(x()), bx(x()))))),
+            ("[x, x][0]==[x, x][1]", E::Bin("==", bx(E::Index(bx(E::List(vec![x(), x()])), bx(l(MV::Int(0))))), bx(E::Index(bx(E::List(vec![x(), x()])), bx(l(MV::Int(1))))))),
+            ("{'k': x}.k=={'k': x}.k", E::Bin("==", bx(E::Select(bx(E::Map(vec![(l(MV::s("k")), x())])), "k".into())), bx(E::Select(bx(E::Map(vec![(l(MV::s("k")), x())])), "k".into())))),
+            ("[[double('NaN')]].all(y, y==y)", E::Macro("all", bx(E::List(vec![E::List(vec![call("double", vec![l(MV::s("NaN"))])])])), "y".into(), vec![E::Bin("==", bx(y()), bx(y()))])),
+        ];
+        for xv in xs.iter() {
+            env.frames.truncate(1);
+            env.set("x", xv.clone());
+            let ctx2 = hosts::context_for(&env, &log);
+            for (_name, e) in templates.iter() {
+                if !run.take() {
+                    continue;
+                }
+                check_program(run, "aliasing", e, &ctx2, &mut env);
+            }
+        }
+        env = base_env();
+    }
+
     // ---- spines: every type-consistent chain of unary contexts up to depth 6 (quick 4)
     let depth = run.pick(4usize, 6usize);
     let ws = wrappers();
